@@ -36,6 +36,14 @@ class Trace:
                 a = dict(who=r[3], ev=r[4], begin=r[0], tb=r[1], end=None, kind=None)
                 open_aw[(r[3], r[4])] = a
                 self.awaits.append(a)
+            elif k == 'step-begin':  # a handler pumping another bus with EventBus.step(): suspended on that bus's behalf, like an await (the 'event' is a pseudo-name)
+                a = dict(who=r[3], ev='step:' + r[4], begin=r[0], tb=r[1], end=None, kind=None)
+                open_aw[(r[3], 'step:' + r[4])] = a
+                self.awaits.append(a)
+            elif k == 'step-end':
+                a = open_aw.pop((r[3], 'step:' + r[4]), None)
+                if a is not None:
+                    a['end'], a['te'], a['kind'], a['extra'] = r[0], r[1], 'await-end', 'same'
             elif k in ('await-end', 'await-cancelled', 'await-raised'):
                 a = open_aw.pop((r[3], r[4]), None)
                 if a is not None:
